@@ -118,6 +118,24 @@ func buildChild(race bool) (string, error) {
 	return bin, nil
 }
 
+// buildCLI builds one of the repository's command line tools from the tree
+// under test (the end-to-end cases of C12 / C13 execute it).
+func buildCLI(name string) (string, error) {
+	repoDir := "/repo"
+	if r := os.Getenv("VERIF_REPO"); r != "" {
+		repoDir = r
+	}
+	bin := filepath.Join(workDir, "bin", name)
+	cmd := exec.Command("go", "build", "-o", bin, "./cmd/"+name)
+	cmd.Dir = repoDir
+	cmd.Env = append(env(), "CGO_ENABLED=0")
+	out, err := cmd.CombinedOutput()
+	if err != nil {
+		return "", fmt.Errorf("go build ./cmd/%s: %v\n%s", name, err, out)
+	}
+	return bin, nil
+}
+
 type shardResult struct {
 	viols    []violation
 	stats    []*stats
@@ -394,6 +412,15 @@ func main() {
 			fmt.Println("INCONCLUSIVE property=" + id + " build failed")
 			fmt.Fprintln(os.Stderr, err)
 			os.Exit(3)
+		}
+		for _, cli := range p.CLI {
+			cbin, err := buildCLI(cli)
+			if err != nil {
+				fmt.Println("INCONCLUSIVE property=" + id + " build failed")
+				fmt.Fprintln(os.Stderr, err)
+				os.Exit(3)
+			}
+			os.Setenv("VERIF_BIN_"+strings.ToUpper(strings.ReplaceAll(cli, "-", "_")), cbin)
 		}
 		nshards := p.shards(tier)
 		if only != "" {
